@@ -82,3 +82,228 @@ theorem expandBfs_inv (c : Ctx n) (d : Diag n) (start : Nat) (lv sz : Option Nat
   bfsLoop_inv c lv sz _ d _ _ _ h
 
 end Balm.Props.C04
+
+namespace Balm.Props.C04
+
+open Balm Balm.Impl Balm.SDm
+
+variable {n : Nat}
+
+/-- the DFS driver only changes the diagram through single-node expansion -/
+theorem dfsLoop_inv (c : Ctx n) (stackLimit sz : Option Nat) :
+    ∀ (fuel : Nat) (d : Diag n) (seen : List Nat) (stack : List (Nat × Option (List Nat))) (complete : Bool),
+      StrictInv c d → StrictInv c (dfsLoop c stackLimit sz fuel d seen stack complete).1 := by
+  intro fuel
+  induction fuel with
+  | zero => intro d seen stack complete h; simpa [dfsLoop] using h
+  | succ fuel ih =>
+    intro d seen stack complete h
+    cases stack with
+    | nil => simpa [dfsLoop] using h
+    | cons top rest =>
+      obtain ⟨node, succ?⟩ := top
+      -- the continuation after the successors are known
+      have hstep : ∀ (d' : Diag n) (succ : List Nat), StrictInv c d' →
+          StrictInv c (match dropSeen seen succ with
+            | [] => dfsLoop c stackLimit sz fuel d' seen rest complete
+            | s :: restSucc =>
+              if hit stackLimit rest.length then dfsLoop c stackLimit sz fuel d' seen rest false
+              else dfsLoop c stackLimit sz fuel d' (s :: seen) ((s, none) :: (node, some restSucc) :: rest) complete).1 := by
+        intro d' succ hd'
+        split
+        · exact ih _ _ _ _ hd'
+        · split
+          · exact ih _ _ _ _ hd'
+          · exact ih _ _ _ _ hd'
+      cases succ? with
+      | some succ =>
+        simp only [dfsLoop]
+        exact hstep d succ h
+      | none =>
+        simp only [dfsLoop]
+        split
+        · exact h
+        · have h' := expandNode_inv c d node h
+          cases hx : expandNode c d node with
+          | mk d' okk =>
+            rw [hx] at h'
+            simp only
+            split
+            · exact h'
+            · exact hstep d' _ h'
+
+/-- **DFS from any node with any limits preserves the strict invariant.** -/
+theorem expandDfs_inv (c : Ctx n) (d : Diag n) (start : Nat) (st sz : Option Nat) (h : StrictInv c d) :
+    StrictInv c (expandDfs c d start st sz).1 :=
+  dfsLoop_inv c st sz _ d _ _ _ h
+
+theorem targetLevel_inv (c : Ctx n) (target : Space n) (sz : Option Nat) :
+    ∀ (cur : List Nat) (d : Diag n) (seen next : List Nat), StrictInv c d →
+      StrictInv c (targetLevel c target sz cur d seen next).1 := by
+  intro cur
+  induction cur with
+  | nil => intro d seen next h; simpa [targetLevel] using h
+  | cons node rest ih =>
+    intro d seen next h
+    unfold targetLevel
+    simp only
+    split
+    · exact ih _ _ _ h
+    · split
+      · exact ih _ _ _ h
+      · split
+        · exact h
+        · have h' := expandNode_inv c d node h
+          cases hx : expandNode c d node with
+          | mk d' okk =>
+            rw [hx] at h'
+            simp only
+            split
+            · exact h'
+            · exact ih _ _ _ h'
+
+theorem targetLoop_inv (c : Ctx n) (target : Space n) (sz : Option Nat) :
+    ∀ (fuel : Nat) (d : Diag n) (seen cur : List Nat), StrictInv c d →
+      StrictInv c (targetLoop c target sz fuel d seen cur).1 := by
+  intro fuel
+  induction fuel with
+  | zero => intro d seen cur h; simpa [targetLoop] using h
+  | succ fuel ih =>
+    intro d seen cur h
+    unfold targetLoop
+    split
+    · exact h
+    · have h' := targetLevel_inv c target sz cur d seen [] h
+      cases hx : targetLevel c target sz cur d seen [] with
+      | mk d' r =>
+        obtain ⟨seen', next, early⟩ := r
+        rw [hx] at h'
+        simp only
+        cases early with
+        | some o => exact h'
+        | none => exact ih _ _ _ h'
+
+/-- **Target-directed expansion preserves the strict invariant.** -/
+theorem expandToTarget_inv (c : Ctx n) (d : Diag n) (target : Space n) (sz : Option Nat) (h : StrictInv c d) :
+    StrictInv c (expandToTarget c d target sz).1 :=
+  targetLoop_inv c target sz _ d _ _ h
+
+end Balm.Props.C04
+
+namespace Balm.Props.C04
+
+open Balm Balm.Impl Balm.SDm
+
+variable {n : Nat}
+
+/-- without `skip_ignored` the inner loop of the minimal-space driver does not touch the diagram -/
+theorem minDrop_noskip (c : Ctx n) (allMins : List (Space n)) (has : Bool) (seen : List Nat) :
+    ∀ (succ : List Nat) (d : Diag n), (minDrop c false allMins has seen succ d).2 = d := by
+  intro succ
+  induction succ with
+  | nil => intro d; simp [minDrop]
+  | cons x xs ih =>
+    intro d
+    unfold minDrop
+    split
+    · exact ih d
+    · split
+      · simpa using ih d
+      · rfl
+
+/-- the minimal-space driver (no skipping) only changes the diagram through single-node expansion -/
+theorem minLoop_inv (c : Ctx n) (sz : Option Nat) (allMins : List (Space n)) :
+    ∀ (fuel : Nat) (d : Diag n) (seen : List Nat) (mins : List (Space n))
+      (stack : List (Nat × Option (List Nat))),
+      StrictInv c d → StrictInv c (minLoop c sz false allMins fuel d seen mins stack).1 := by
+  intro fuel
+  induction fuel with
+  | zero => intro d seen mins stack h; simpa [minLoop] using h
+  | succ fuel ih =>
+    intro d seen mins stack h
+    cases stack with
+    | nil => simpa [minLoop] using h
+    | cons top rest =>
+      obtain ⟨node, succ?⟩ := top
+      have hstep : ∀ (d' : Diag n) (succ : List Nat), StrictInv c d' →
+          StrictInv c (
+            match minDrop c false allMins (mins.any fun m => m.leB (d'.space node)) seen succ d' with
+            | (succ', d'') =>
+              match succ' with
+              | [] =>
+                minLoop c sz false allMins fuel d'' seen
+                  (if (d''.isExp node && (d''.succs node).isEmpty) = true then removeFirst (d''.space node) mins else mins) rest
+              | s :: rest' =>
+                minLoop c sz false allMins fuel d'' (s :: seen) mins ((s, none) :: (node, some rest') :: rest)).1 := by
+        intro d' succ hd'
+        have hkeep := minDrop_noskip c allMins (mins.any fun m => m.leB (d'.space node)) seen succ d'
+        cases hx : minDrop c false allMins (mins.any fun m => m.leB (d'.space node)) seen succ d' with
+        | mk succ' d'' =>
+          rw [hx] at hkeep
+          simp only at hkeep
+          subst hkeep
+          simp only
+          split
+          · exact ih _ _ _ _ hd'
+          · exact ih _ _ _ _ hd'
+      cases succ? with
+      | some succ =>
+        simp only [minLoop]
+        exact hstep d succ h
+      | none =>
+        simp only [minLoop]
+        split
+        · exact h
+        · have h' := expandNode_inv c d node h
+          cases hx : expandNode c d node with
+          | mk d' okk =>
+            rw [hx] at h'
+            simp only
+            split
+            · exact h'
+            · exact hstep d' _ h'
+
+/-- **Minimal-space expansion without skipping preserves the strict invariant**, for every answer of
+    the `min` solver it is given. -/
+theorem expandMinimal_inv (c : Ctx n) (d : Diag n) (start : Nat) (sz : Option Nat) (allMins : List (Space n))
+    (h : StrictInv c d) : StrictInv c (expandMinimalWith c d start sz false allMins).1 :=
+  minLoop_inv c sz allMins _ d _ _ _ h
+
+/-- the plain operations of the model -/
+inductive PlainOp (n : Nat) where
+  | one (i : Nat)
+  | bfs (start : Nat) (lv sz : Option Nat)
+  | dfs (start : Nat) (st sz : Option Nat)
+  | target (t : Space n) (sz : Option Nat)
+  | minimal (start : Nat) (sz : Option Nat) (solverAnswer : List (Space n))
+
+def runOp (c : Ctx n) (d : Diag n) : PlainOp n → Diag n
+  | .one i => (expandNode c d i).1
+  | .bfs s lv sz => (expandBfs c d s lv sz).1
+  | .dfs s st sz => (expandDfs c d s st sz).1
+  | .target t sz => (expandToTarget c d t sz).1
+  | .minimal s sz ans => (expandMinimalWith c d s sz false ans).1
+
+/-- **C04 for the executable model.** For every network, every stable-motif limit and every history
+    of plain operations – single-node expansion, BFS, DFS, target-directed and minimal-space
+    expansion with arbitrary start nodes, limits, targets and solver answers – the strict invariant
+    holds in the resulting diagram (hence at every moment of the history). -/
+theorem plain_history_inv (N : Net n) (L : Nat) (ops : List (PlainOp n)) :
+    StrictInv (Ctx.mk' N L) (ops.foldl (runOp (Ctx.mk' N L)) (initDiag (Ctx.mk' N L))) := by
+  have : ∀ (ops : List (PlainOp n)) (d : Diag n), StrictInv (Ctx.mk' N L) d →
+      StrictInv (Ctx.mk' N L) (ops.foldl (runOp (Ctx.mk' N L)) d) := by
+    intro ops
+    induction ops with
+    | nil => intro d h; exact h
+    | cons op ops ih =>
+      intro d h
+      apply ih
+      cases op with
+      | one i => exact expandNode_inv _ d i h
+      | bfs s lv sz => exact expandBfs_inv _ d s lv sz h
+      | dfs s st sz => exact expandDfs_inv _ d s st sz h
+      | target t sz => exact expandToTarget_inv _ d t sz h
+      | minimal s sz ans => exact expandMinimal_inv _ d s sz ans h
+  exact this ops _ (init_inv N L)
+
+end Balm.Props.C04
